@@ -36,13 +36,13 @@ type Pair struct {
 	K, V *Val
 }
 type Val struct {
-	T      byte
-	B      []byte // scalar payload (string: content)
-	F      []Field
-	ET     byte // list/set element type, map value type
-	KT     byte
-	E      []*Val
-	P      []Pair
+	T  byte
+	B  []byte // scalar payload (string: content)
+	F  []Field
+	ET byte // list/set element type, map value type
+	KT byte
+	E  []*Val
+	P  []Pair
 }
 
 func fixedSize(t byte) int {
